@@ -734,6 +734,17 @@ def _group_stress():
 
 CORPUS_TEXTS = CORPUS_TEXTS + _group_stress()
 
+
+def _group_pairs():
+    """operand pairs over ONE variable: every two of the ==-groups / !=-groups / atoms (both orders), for & and |"""
+    out = []
+    for v, (a, b, c) in (("sys_platform", ("linux", "darwin", "win32")), ("os_name", ("nt", "posix", "java"))):
+        items = [f'{v} == "{a}" or {v} == "{b}"', f'{v} == "{b}" or {v} == "{c}"', f'{v} != "{a}" and {v} != "{b}"', f'{v} != "{b}" and {v} != "{c}"',
+                 f'{v} == "{a}"', f'{v} != "{c}"', f'{v} in "{a} {c}"', f'"{a[:2]}" in {v}']
+        out += [(x, y) for x in items for y in items if x != y]
+    return out
+
+
 CORPUS_PAIRS = [
     # two unions sharing a child, with version atoms that inflate cnf/dnf so that union() returns its raw candidate
     ('(python_version in "3.6, 3.7" and extra != "a") or extra == "b"', 'extra == "b" or (sys_platform == "darwin" and python_full_version < "3.7.2")'),
@@ -755,3 +766,4 @@ CORPUS_PAIRS = [
     ('extra == "foo"', 'extra != "foo"'),
     ('python_version ~= "3.6"', 'python_version < "3.9"'),
 ]
+CORPUS_PAIRS = CORPUS_PAIRS + _group_pairs()
